@@ -39,6 +39,7 @@ class Fn:
     name: str
     container: str = None
     rename: str = None            # name in the generated file (default: same)
+    optional: bool = False        # the function may be absent from the source (then the item is skipped; a call to it would not compile)
     ret: str = None               # name for the result  `-> (ret: T)`
     contract: str = ""            # requires/ensures/decreases text
     loops: dict = field(default_factory=dict)   # ordinal -> invariant text
@@ -362,6 +363,12 @@ def generate(unit: Unit, root, rules_mod):
             meta["items"].append({"item": where, "lines": [src.line_of(s), src.line_of(e)], "sha256": sha(orig), "kind": it.kw})
             continue
         assert isinstance(it, Fn)
+        if it.optional:
+            try:
+                src.find_fn(it.name, it.container)
+            except AnchorLost:
+                meta["rewrites"].append({"where": f"{it.file}::{it.name}", "kind": "optional-item-absent", "old": "", "new": "", "count": 0})
+                continue
         s, b, e = src.find_fn(it.name, it.container)
         orig = src.text[s:e + 1]
         where = f"{it.file}::{(it.container + '::') if it.container else ''}{it.name}"
